@@ -5,7 +5,7 @@
 # whose harness points at that worktree runs the checks.  For experiments only (so that a soak
 # of /verif against /repo can run at the same time); the registered checks always use /repo.
 P=$(readlink -f "$1"); shift
-M=/tmp/mutwork
+M=${MIRROR:-/tmp/mutwork}
 mkdir -p $M
 if [ ! -d $M/repo ]; then git -C /repo worktree add --detach $M/repo HEAD >/dev/null 2>&1 || exit 2; fi
 git -C $M/repo checkout -q --detach $(git -C /repo rev-parse HEAD) && git -C $M/repo checkout -q -- . || exit 2
